@@ -3,7 +3,7 @@
    check_case: the model computes what the implementation did.
    spec_case : what the implementation did satisfies the property, judged on the
                observations alone (no model involved). *)
-From Sdns Require Export Common.Base Gen.C11 C11.Model C11.Stream C11.Regroup.
+From Sdns Require Export Common.Base Gen.C11 C11.Model C11.Stream C11.Regroup C11.Shutdown C11.Flights.
 
 (* ---- observations ---- *)
 (* writer: per op, return class (0 nil, 1 errAlreadyWritten, 2 other error), Written() after
@@ -55,7 +55,19 @@ Inductive case :=
      own context ends, how), the timed history, per caller: return instant, class (0 answer,
      1 own context error, 2 a request-local error while its own context was alive, 3 other,
      9 never returned), kind of the error (1 deadline, 2 cancellation) *)
-| CaseRegroup (cs : list gcaller) (evs : list gtev) (obs : list gobs).
+| CaseRegroup (cs : list gcaller) (evs : list gtev) (obs : list gobs)
+  (* the server-level scenarios with the UDP listener shut down in the middle (real
+     udpListener.Shutdown / udpEngine.stopAndDrain): as CaseServer, plus whether the drain ran
+     into its deadline, the instant Shutdown was called and the instant it returned *)
+| CaseShutdown (workers qcap cap : nat) (rs : list preq) (paths : list N) (evs : list devent)
+               (obs : list pobs) (entered : list bool) (downstream_calls : N) (leased_end inflight_end : N)
+               (drain_err : bool) (stop_at shutdown_returned : Z)
+  (* groupLookup over several keys sharing the global in-flight pool and one zone quota: per
+     caller its key; capacities; callers, timed history, per-caller observation (class 4 = shed
+     at the global pool, 5 = shed at the zone quota), and the (global, zone) slots held after
+     every event *)
+| CaseFlights (keys : list nat) (nkeys cap zcap : nat) (cs : list gcaller) (evs : list gtev)
+              (obs : list gobs) (series : list (nat * nat)).
 
 (* ---- helpers ---- *)
 Definition ret_code (r : wret) : N := match r with ROk => 0 | RAlready => 1 | RErr => 2 end%N.
@@ -214,13 +226,19 @@ Fixpoint deadlines_ok (rs : list preq) (o : list pobs) : bool :=
   | _, _ => true
   end.
 
-Definition pipe_agrees (rq : list preq) (mcalls : N) (obs : list pobs) (dcalls : N) : bool :=
-  let m := map observe rq in
+Definition agrees (m : list (N * N * bool)) (mcalls : N) (obs : list pobs) (dcalls : N) : bool :=
   let nracy := N.of_nat (length (filter po_racy obs)) in
   pointwise_or_racy m obs &&
   list_eqb N.eqb (sortN (map (fun x => wc_code (fst (fst x)) (snd (fst x))) m))
                  (sortN (map (fun y => wc_code (po_writes y) (po_class y)) obs)) &&
   (mcalls <=? dcalls)%N && (dcalls <=? mcalls + nracy)%N.
+Definition pipe_agrees (rq : list preq) (mcalls : N) (obs : list pobs) (dcalls : N) : bool :=
+  agrees (map observe rq) mcalls obs dcalls.
+
+Fixpoint dobserve_all (d : dworld) (i : nat) (rq : list preq) : list (N * N * bool) :=
+  match rq with [] => [] | q :: r => dobserve d i q :: dobserve_all d (S i) r end.
+Fixpoint drain_of (evs : list devent) : Z :=
+  match evs with [] => 0%Z | DShutdown d :: _ => Z.of_N d | _ :: r => drain_of r end.
 
 Fixpoint entered_ok (o : list pobs) (en : list bool) : bool :=
   match o, en with
@@ -330,6 +348,17 @@ Definition check_case (c : case) : bool :=
   | CaseRegroup cs evs obs =>
       let s := fold_left gtstep evs (g0 (length cs)) in
       list_eqb gobs_eqb (map (expected cs s) (seq 0 (length cs))) obs
+  | CaseShutdown workers qcap cap rs paths evs obs entered dcalls leased inflight derr stop_at returned =>
+      let d := drun (dworld0 (sworld0 rs paths workers qcap cap)) evs in
+      let w := s_w (d_s d) in
+      agrees (dobserve_all d 0 (reqs w)) (calls w) obs dcalls &&
+      (N.of_nat (e_leased (s_e (d_s d))) =? leased)%N && (inflight =? leased)%N &&
+      Bool.eqb (d_err d) derr
+  | CaseFlights keys nkeys cap zcap cs evs obs series =>
+      let s0 := f0 keys nkeys cap zcap in
+      let s := ffinal s0 evs in
+      list_eqb gobs_eqb (map (fexpected cs s) (seq 0 (length cs))) obs &&
+      list_eqb (fun a b => (fst a =? fst b)%nat && (snd a =? snd b)%nat) (fseries s0 evs) series
   end.
 
 Definition spec_case (c : case) : bool :=
@@ -392,4 +421,33 @@ Definition spec_case (c : case) : bool :=
                  | 1 => (go_ret o =? gc_end c)%Z && (go_ekind o =? gc_kind c)%N
                  | _ => false
                  end%N) (combine cs obs)
+  | CaseShutdown workers qcap cap rs paths evs obs entered dcalls leased inflight derr stop_at returned =>
+      (* the bounds hold under shutdown: never two replies; an admitted request is answered
+         unless its client left - or the drain ran into its deadline (recorded) and the request
+         only returned after the sockets were closed; Shutdown itself returns within its drain
+         timeout; everything is handed back *)
+      let closed_at := (stop_at + drain_of evs)%Z in
+      forallb (fun y => (po_writes y <=? 1)%N && (if (po_class y =? 3)%N then po_expired y else true)) obs &&
+      (length rs =? length obs)%nat && (length entered =? length obs)%nat && (length paths =? length obs)%nat &&
+      forallb (fun x => let '(y, e, p) := x in
+                 (po_writes y =? 1)%N || po_cancelled y || negb e ||
+                 (derr && negb (p =? 0)%N && (closed_at <? Z.of_N (po_end y))%Z))
+              (combine (combine obs entered) paths) &&
+      deadlines_ok rs obs &&
+      (stop_at <=? returned)%Z && (returned <=? closed_at)%Z &&
+      (leased =? 0)%N && (inflight =? 0)%N
+  | CaseFlights keys nkeys cap zcap cs evs obs series =>
+      (* every caller returns with the answer, its own error exactly when its own context ends,
+         or a capacity refusal of its own at the instant it tried; the pools are never
+         overdrawn, and once everybody has returned every slot is back *)
+      (length cs =? length obs)%nat &&
+      forallb (fun p => let '(c, o) := p in
+                 match go_class o with
+                 | 0 => (gc_arrive c <=? go_ret o)%Z && (go_ret o <? gc_end c)%Z
+                 | 1 => (go_ret o =? gc_end c)%Z && (go_ekind o =? gc_kind c)%N
+                 | 4 | 5 => (gc_arrive c <=? go_ret o)%Z && (go_ret o <? gc_end c)%Z
+                 | _ => false
+                 end%N) (combine cs obs) &&
+      forallb (fun x => (fst x <=? cap)%nat && (snd x <=? zcap)%nat) series &&
+      match rev series with (u, z) :: _ => (u =? 0)%nat && (z =? 0)%nat | [] => true end
   end.
